@@ -61,7 +61,7 @@ def main():
         print(mid, 'PATCH DOES NOT APPLY'); return
     # ---------------- A. confirm
     if confirm:
-        wt = '/tmp/mev-wt'; tgt = '/tmp/mev-target'
+        wt = '/tmp/mev-wt' + os.environ.get('MEV_ID', ''); tgt = '/tmp/mev-target' + os.environ.get('MEV_ID', '')
         sh(['git', '-C', '/repo', 'worktree', 'remove', '--force', wt])
         shutil.rmtree(wt, ignore_errors=True)
         rc, out = sh(['git', '-C', '/repo', 'worktree', 'add', '--detach', wt, 'HEAD'])
